@@ -28,6 +28,6 @@ CONSTANTS
   EVENTS = {"NstUpdate","Withdraw","Deposit"}
   FAILBUDGET = 99
   WANTED <- c_WANTED
-VIEW View
+VIEW ViewG
 INVARIANTS EmitGoals
 CHECK_DEADLOCK FALSE
